@@ -364,7 +364,9 @@ class DualVigilanceART(BaseART):
                             self.map[c_new] = self.map[c_]
                             self._set_params(base_params)
                             return self.map[c_new]
-                else:
+                elif m1:
+                    # as in BaseART.step_fit: only the veto of a category that
+                    # passes the vigilance test moves the vigilance
                     keep_searching = self._match_tracking(
                         cache, epsilon, self.params, match_tracking
                     )
